@@ -125,6 +125,7 @@ type c20Plan struct {
 	anns      []c20Ann
 	serve     map[[2]int]time.Duration
 	spont     []c20Spont
+	twin      map[int]int // h -> g: item h carries the same 128-bit hash value as item g, under the OTHER push type
 }
 
 func c20Ms(x float64) time.Duration { return time.Duration(x * float64(time.Millisecond)) }
@@ -133,8 +134,19 @@ func c20GenPlan(rng *verifutil.Rng, H, P int) *c20Plan {
 	pl := &c20Plan{label: "generated", P: P, H: H, serve: map[[2]int]time.Duration{}}
 	pl.pullDelay = time.Duration(rng.Range(2, 5)*10) * time.Millisecond
 	pd := float64(pl.pullDelay) / float64(time.Millisecond)
+	pl.twin = map[int]int{}
+	twinned := map[int]bool{}
 	for h := 0; h < H; h++ {
 		pl.kind = append(pl.kind, rng.Intn(2))
+		// every sixth item or so reuses the hash VALUE of an earlier item under the other type
+		// (types have separate holders and trackers: the two items are unrelated)
+		if h > 0 && rng.Chance(1, 6) {
+			if g := rng.Intn(h); !twinned[g] { // a value is used once per type
+				twinned[g], twinned[h] = true, true
+				pl.twin[h] = g
+				pl.kind[h] = 1 - pl.kind[g]
+			}
+		}
 		cls := rng.Pick(25, 25, 25, 8, 10, 7)
 		k := rng.Range(2, P)
 		if rng.Chance(1, 2) {
@@ -261,6 +273,10 @@ func c20Run(rep *verifutil.Report, rng *verifutil.Rng, pl *c20Plan, bare bool) *
 	hidx := map[pushPullHash]int{}
 	for h := 0; h < pl.H; h++ {
 		pph[h] = pushPullHash{Type: types[pl.kind[h]], Hash: c20Hash(rng, h)}
+		if g, ok := pl.twin[h]; ok {
+			pph[h].Hash = pph[g].Hash
+			rep.Count("items_sharing_hash_value_across_types", 1)
+		}
 		hidx[pph[h]] = h
 	}
 	pids := make([]peer.ID, pl.P)
